@@ -6,7 +6,7 @@ by step with the sequential reference mc.syncmodel.RefSem."""
 from mc.core import Check
 from mc import syncmodel
 
-OPS = [("acq", None), ("acq", "td"), ("acq", "abs"), ("acq", "zero"), ("rel",), ("cancel", 0), ("cancel", 1),
+OPS = [("acq", None), ("acq", "td"), ("acq", "abs"), ("acq", "zero"), ("acq_ctx",), ("rel",), ("cancel", 0), ("cancel", 1),
        ("cancel", -1), ("adv",)]
 SPECS = [("sem", 0), ("sem", 1), ("sem", 2), ("bsem", 1), ("bsem", 2), ("lock",)]
 
@@ -23,7 +23,7 @@ class C33(Check):
     id = "C33"
     level = "model_checking"
     rule = ("BFS over all histories up to the depth bound of {acquire(no timeout | timedelta | absolute "
-            "deadline), release, cancel k-th pending future (first, second, newest), advance clock 0.5 s} "
+            "deadline | zero), a task entering 'async with', release, cancel k-th pending future (first, second, newest), advance clock 0.5 s} "
             "on Semaphore(0|1|2), BoundedSemaphore(1|2), Lock; state = (value, waiter deque done-flags, "
             "gc counter, remaining times of pending futures, loop timers); after every op the state of every "
             "future, the op's result/raise and the reference invariants are compared; plus one long "
